@@ -6,6 +6,7 @@
    links), every capacity function, both balance settings, every bound, clock and horizon. *)
 From PJ Require Import Base.Prelude Sched.Model Sched.Machine Sched.Instances Sched.WfIn
      Sched.C14Pass Sched.C14Proofs Sched.C14Wf.
+From PJ Require Import Sched.C14Capacity.
 From Coq Require Import Relations.Relation_Operators.
 
 (* ---- (a) a schedule or RuntimeError, nothing else; the fuel |w|+2 of the pass is never exhausted ---- *)
@@ -67,6 +68,80 @@ Theorem C14_reentry : forall w deps kids bnd compute fuel st t,
   /\ forall (f : sst -> nat -> res sst) l1 a l2 s s1,
        fold_res f l1 s = Ok s1 -> f s1 a = Err -> fold_res f (l1 ++ a :: l2) s = Err.
 Proof. exact C14_reentry_holds. Qed.
+
+(* ---- (b') session 3: the starved leaf anywhere in the WBS ---- *)
+(* a run that returns calculated every member in a reachable machine state in which the member was
+   enabled and its calculation answered Ok *)
+Theorem C14_ok_members_computed : forall cfg w t,
+  WFin w -> k_ext (gett w t) = false ->
+  (forall st, forward cfg w = Ok st ->
+     exists c r, fsteps cfg w [] (init_core w) c /\ inv14 w c /\ enabled w (fdeps w) (fkids w) c t
+                 /\ fwd_compute cfg w (c_dy c) (c_lg c) t (fbnd cfg (c_dy c) (fdeps w t)) = Ok r)
+  /\ (forall st, backward cfg w = Ok st ->
+     exists c r, bsteps cfg w [] (init_core w) c /\ inv14 w c /\ enabled w (bdeps w) (bkids w) c t
+                 /\ bwd_compute cfg w (c_dy c) (c_lg c) t (bbnd cfg (c_dy c) (bdeps w t)) = Ok r).
+Proof. exact C14_ok_members_computed_holds. Qed.
+
+(* hence: a member whose calculation answers RuntimeError in every reachable state in which it may
+   be calculated makes calc answer RuntimeError, wherever the member sits and whenever it is reached *)
+Theorem C14_err_stuck_member : forall cfg w t,
+  WFin w -> k_ext (gett w t) = false ->
+  ((forall c, fsteps cfg w [] (init_core w) c -> inv14 w c -> enabled w (fdeps w) (fkids w) c t ->
+              fwd_compute cfg w (c_dy c) (c_lg c) t (fbnd cfg (c_dy c) (fdeps w t)) = Err) ->
+   forward cfg w = Err)
+  /\ ((forall c, bsteps cfg w [] (init_core w) c -> inv14 w c -> enabled w (bdeps w) (bkids w) c t ->
+              bwd_compute cfg w (c_dy c) (c_lg c) t (bbnd cfg (c_dy c) (bdeps w t)) = Err) ->
+   backward cfg w = Err).
+Proof. exact C14_err_stuck_member_holds. Qed.
+
+(* a resource that never becomes available: ANY member that is a non-milestone leaf without a fixed
+   start (forward) / end (backward) - also one without work left: the availability search runs for
+   every such leaf.  No side condition on the pre-checks (they answer RuntimeError themselves). *)
+Theorem C14_err_no_capacity_any : forall cfg w t,
+  WFin w -> k_ext (gett w t) = false ->
+  k_children (gett w t) = [] -> k_milestone (gett w t) = false ->
+  (forall d, cap cfg (k_res (gett w t)) d <= 0) ->
+  (k_start (gett w t) = None -> forward cfg w = Err) /\ (k_end (gett w t) = None -> backward cfg w = Err).
+Proof. exact C14_err_no_capacity_any_holds. Qed.
+
+(* a bounded calendar that ended before the project start (forward) / begins after the project end
+   (backward): the search starts at or after the bound and only moves away from it *)
+Theorem C14_err_calendar_ended_forward : forall cfg w t,
+  WFin w -> k_ext (gett w t) = false ->
+  k_children (gett w t) = [] -> k_milestone (gett w t) = false -> k_start (gett w t) = None ->
+  (forall d, day_of (pbound cfg) <= d -> cap cfg (k_res (gett w t)) d <= 0) ->
+  forward cfg w = Err.
+Proof. exact C14_err_calendar_ended_forward_holds. Qed.
+
+Theorem C14_err_calendar_ended_backward : forall cfg w t,
+  WFin w -> k_ext (gett w t) = false ->
+  k_children (gett w t) = [] -> k_milestone (gett w t) = false -> k_end (gett w t) = None ->
+  (forall d, d < day_of (pbound cfg) -> cap cfg (k_res (gett w t)) d <= 0) ->
+  backward cfg w = Err.
+Proof. exact C14_err_calendar_ended_backward_holds. Qed.
+
+(* sharper, forward: nothing from the day of max(project start, now, min_start of t) on *)
+Theorem C14_err_calendar_ended_forward_from : forall cfg w t,
+  WFin w -> k_ext (gett w t) = false ->
+  k_children (gett w t) = [] -> k_milestone (gett w t) = false -> k_start (gett w t) = None ->
+  (forall d, day_of (Z.max (Z.max (pbound cfg) (now cfg)) (odflt (k_minstart (gett w t)) 0)) <= d ->
+             cap cfg (k_res (gett w t)) d <= 0) ->
+  forward cfg w = Err.
+Proof. exact C14_err_calendar_ended_forward_from_holds. Qed.
+
+(* capacity exists, but not within max_days of get_nearest_availability_date; for a task that waits
+   for nothing the window is determined by the input alone *)
+Theorem C14_err_beyond_horizon : forall cfg w t,
+  WFin w -> k_ext (gett w t) = false -> k_children (gett w t) = [] -> k_milestone (gett w t) = false ->
+  (k_start (gett w t) = None -> prereqs w t = [] ->
+   (forall d, day_of (fwd_earliest cfg w t) <= d < day_of (fwd_earliest cfg w t) + Z.of_nat (h_search cfg) ->
+              cap cfg (k_res (gett w t)) d <= 0) ->
+   forward cfg w = Err)
+  /\ (k_end (gett w t) = None -> dependants w t = [] ->
+   (forall d, day_of (pbound cfg) - 1 - Z.of_nat (h_search cfg) < d <= day_of (pbound cfg) - 1 ->
+              cap cfg (k_res (gett w t)) d <= 0) ->
+   backward cfg w = Err).
+Proof. exact C14_err_beyond_horizon_holds. Qed.
 
 (* ---- (c) RuntimeError has no other cause, hence the converse ---- *)
 Theorem C14_err_causes_forward : forall cfg w,
@@ -180,6 +255,81 @@ Example C14_example_complete :
   /\ (forall c u, fsteps cfg w [] (init_core w) c -> ~ fstuck cfg w c u).
 Proof. exact complete_example_holds. Qed.
 
+(* ---- session 3: the starved leaf is reached last, below a summary, after other tasks were scheduled ---- *)
+(* resource 1 never available; resource 2: a calendar that ended on day 19699 (before the project start
+   19723); resource 3: a calendar that begins on day 19801 (after the project end 19790) *)
+Definition ex_cap2 (r : nat) (d : Z) : Z :=
+  match r with
+  | O => if weekday_of_day d <? 5 then 64 else 0
+  | 1%nat => 0
+  | 2%nat => if d <? 19700 then (if weekday_of_day d <? 5 then 64 else 0) else 0
+  | _ => if 19800 <? d then 64 else 0
+  end.
+Definition ex_cfg2 (pb : Z) (h : nat) : config :=
+  {| cap := ex_cap2; balance := true; dflt_est := 0; pbound := pb; now := 19700 * DAY;
+     h_search := h; h_near := 1000; h_fill := 1000 |}.
+(* forward order: A (0), then the summary S (1) with its children 2 and 3; task 3 is the last one *)
+Definition ex_starved (r : nat) (e : Z) : list itask :=
+  [mk None [] [] [] 0 64 None; mk None [2; 3]%nat [] [] 0 0 None;
+   mk (Some 1%nat) [] [] [] 0 48 None; mk (Some 1%nat) [] [] [] r e None].
+(* backward order: 3, then the summary S (0) with its children 2 and 1; task 1 is the last one *)
+Definition ex_starved_b (r : nat) (e : Z) : list itask :=
+  [mk None [1; 2]%nat [] [] 0 0 None; mk (Some 0%nat) [] [] [] r e None;
+   mk (Some 0%nat) [] [] [] 0 48 None; mk None [] [] [] 0 64 None].
+
+Example C14_example_starved_last :
+  (* on an available resource the task is the last one calculated (calc is newest first, the summary
+     after its children) *)
+  (WFin (ex_starved 0 16)
+   /\ (exists st, forward (ex_cfg2 (19723 * DAY) 1000) (ex_starved 0 16) = Ok st
+                  /\ calc st = [1; 3; 2; 0]%nat /\ length (lg st) = 3%nat)
+   /\ WFin (ex_starved_b 0 16)
+   /\ (exists st, backward (ex_cfg2 (19790 * DAY) 1000) (ex_starved_b 0 16) = Ok st
+                  /\ calc st = [0; 1; 2; 3]%nat /\ length (lg st) = 3%nat))
+  (* never available (hypotheses of C14_err_no_capacity_any), with and without work left *)
+  /\ (WFin (ex_starved 1 16) /\ WFin (ex_starved 1 0) /\ WFin (ex_starved_b 1 16) /\ WFin (ex_starved_b 1 0)
+      /\ (forall d, ex_cap2 1 d <= 0)
+      /\ isolated_ok (ex_starved 1 16) = true /\ no_future_ends (ex_starved 1 16) (19700 * DAY) = true
+      /\ forward (ex_cfg2 (19723 * DAY) 1000) (ex_starved 1 16) = Err
+      /\ forward (ex_cfg2 (19723 * DAY) 1000) (ex_starved 1 0) = Err
+      /\ backward (ex_cfg2 (19790 * DAY) 1000) (ex_starved_b 1 16) = Err
+      /\ backward (ex_cfg2 (19790 * DAY) 1000) (ex_starved_b 1 0) = Err)
+  (* the calendar ended before the project start / begins after the project end
+     (hypotheses of C14_err_calendar_ended_forward / _backward) *)
+  /\ (WFin (ex_starved 2 16) /\ WFin (ex_starved_b 3 16)
+      /\ (forall d, day_of (19723 * DAY) <= d -> ex_cap2 2 d <= 0) /\ 0 < ex_cap2 2 19691
+      /\ (forall d, d < day_of (19790 * DAY) -> ex_cap2 3 d <= 0) /\ 0 < ex_cap2 3 19801
+      /\ forward (ex_cfg2 (19723 * DAY) 1000) (ex_starved 2 16) = Err
+      /\ backward (ex_cfg2 (19790 * DAY) 1000) (ex_starved_b 3 16) = Err)
+  (* capacity from day 19801 on: found with a horizon of 1000 days, not with one of 50 days
+     (hypotheses of C14_err_beyond_horizon, forward) *)
+  /\ (WFin (ex_starved 3 16) /\ prereqs (ex_starved 3 16) 3 = []
+      /\ (let cfg := ex_cfg2 (19723 * DAY) 50 in let w := ex_starved 3 16 in
+          forall d, day_of (fwd_earliest cfg w 3) <= d < day_of (fwd_earliest cfg w 3) + Z.of_nat (h_search cfg) ->
+                    ex_cap2 3 d <= 0)
+      /\ forward (ex_cfg2 (19723 * DAY) 50) (ex_starved 3 16) = Err
+      /\ (exists st, forward (ex_cfg2 (19723 * DAY) 1000) (ex_starved 3 16) = Ok st)).
+Proof.
+  split; [|split; [|split]].
+  - split; [vm_compute; reflexivity|]. split; [eexists; vm_compute; repeat split; reflexivity|].
+    split; [vm_compute; reflexivity|]. eexists; vm_compute; repeat split; reflexivity.
+  - do 4 (split; [vm_compute; reflexivity|]). split; [intros d; unfold ex_cap2; lia|].
+    repeat split; vm_compute; reflexivity.
+  - do 2 (split; [vm_compute; reflexivity|]).
+    assert (E1 : day_of (19723 * DAY) = 19723) by (vm_compute; reflexivity).
+    assert (E2 : day_of (19790 * DAY) = 19790) by (vm_compute; reflexivity).
+    split; [intros d Hd; rewrite E1 in Hd; unfold ex_cap2; destruct (Z.ltb_spec d 19700); lia|].
+    split; [vm_compute; reflexivity|].
+    split; [intros d Hd; rewrite E2 in Hd; unfold ex_cap2; destruct (Z.ltb_spec 19800 d); lia|].
+    split; [vm_compute; reflexivity|]. split; vm_compute; reflexivity.
+  - do 2 (split; [vm_compute; reflexivity|]). split.
+    + intros cfg w d.
+      assert (E : day_of (fwd_earliest cfg w 3) = 19723) by (vm_compute; reflexivity).
+      rewrite E. change (Z.of_nat (h_search cfg)) with 50. intros Hd.
+      unfold ex_cap2. destruct (Z.ltb_spec 19800 d); lia.
+    + split; [vm_compute; reflexivity|]. eexists; vm_compute; reflexivity.
+Qed.
+
 Print Assumptions C14_total_forward.
 Print Assumptions C14_total_backward.
 Print Assumptions C14_compute_no_crash.
@@ -198,3 +348,11 @@ Print Assumptions C14_divisors_positive.
 Print Assumptions C14_example_ok.
 Print Assumptions C14_example_unschedulable.
 Print Assumptions C14_example_complete.
+Print Assumptions C14_ok_members_computed.
+Print Assumptions C14_err_stuck_member.
+Print Assumptions C14_err_no_capacity_any.
+Print Assumptions C14_err_calendar_ended_forward.
+Print Assumptions C14_err_calendar_ended_backward.
+Print Assumptions C14_err_calendar_ended_forward_from.
+Print Assumptions C14_err_beyond_horizon.
+Print Assumptions C14_example_starved_last.
